@@ -126,10 +126,106 @@ def run(cx):
     from . import c10
     c10.rule_global_state(cx, "C13-STATE", [m], floor=1, only={"_format_lib_section", "write_project", "validate_platform_board", "_sanitize_env_name"})
 
-    # ---- C13-LIBS ----------------------------------------------------------------------------
-    r = cx.rule("C13-LIBS", "_format_lib_section = drop falsy, de-duplicate in first-seen order, one indented continuation line each; '' when nothing remains", floor=100, exhaustive=True)
+    rule_libs(cx, m, "C13-LIBS")
+
+    rule_write(cx, m, "C13-WRITE")
+    rule_project_eval(cx, m, "C13-WRITE-EVAL")
+    rule_ini(cx, m, "C13-INI", sorted(set().union(*plats.values())))
+
+
+class FakePath:
+    """recorder standing in for pathlib.Path in the evaluation of write_project: no file system is touched"""
+    __dl_native__ = True
+
+    def __init__(self, parts, log):
+        self.parts, self.log = tuple(parts), log
+
+    def __truediv__(self, other):
+        return FakePath(self.parts + (str(other),), self.log)
+
+    def mkdir(self, *a, **kw):
+        self.log.append(("mkdir", "/".join(self.parts), dict(kw)))
+
+    def write_text(self, text, *a, **kw):
+        self.log.append(("write_text", "/".join(self.parts), text, kw.get("encoding", a[0] if a else None)))
+
+    def __getattr__(self, name):
+        def other(*a, **kw):
+            self.log.append((name, "/".join(self.parts)))
+        return other
+
+
+def rule_project_eval(cx, m, rid):
+    """write_project evaluated (checker's interpreter, recorder in place of Path) for every registered board"""
+    r = cx.rule(rid, "for every registered board write_project performs exactly: mkdir src, src/main.cpp = the given code (utf-8), platformio.ini (utf-8) with one [env:...] section naming exactly the given platform, board and port and the requested libraries once each in order; an unregistered pair writes nothing", floor=300, exhaustive=True)
+    plats = lit.table(m, "SUPPORTED_PLATFORMS")
+    wp = m.func("write_project")
+    code = "// sketch\nvoid setup() {}\nvoid loop() {}\n"
+    libs = ["Servo", "LiquidCrystal_I2C", "LiquidCrystal"]
+    n_bad = 0
+    cases = [(p_, b_, libs if i_ % 2 == 0 else None) for p_, bs in plats.items() for i_, b_ in enumerate(sorted(bs))]
+    cases.append(("atmelavr", "not-a-board", None))
+    for plat, board, lb in cases:
+        log = []
+        try:
+            out = dl.Interp(m).call(wp, [FakePath(("P",), log), code, "/dev/ttyX"], {"platform": plat, "board": board, "lib_deps": lb})
+        except dl.Unsupported as e:
+            raise AnalysisError(f"write_project left the evaluable subset: {e}")
+        if board == "not-a-board":
+            r.check(out.kind == "raise" and not log, "write_project/invalid-pair-writes-nothing", (m, wp), f"write_project(platform={plat!r}, board={board!r}) -> {out!r} after effects {log[:2]}")
+            continue
+        problems = []
+        if out.kind != "return":
+            problems.append(f"raises {out.value}")
+        writes = {e[1]: e for e in log if e[0] == "write_text"}
+        others = [e for e in log if e[0] not in ("write_text", "mkdir")]
+        if others or set(writes) != {"P/src/main.cpp", "P/platformio.ini"}:
+            problems.append(f"effects {[(e[0], e[1]) for e in log]}")
+        else:
+            if writes["P/src/main.cpp"][2] != code or writes["P/src/main.cpp"][3] not in ("utf-8", "utf8", "UTF-8"):
+                problems.append("main.cpp is not the given code in utf-8")
+            ini = writes["P/platformio.ini"][2]
+            lines = [l_ for l_ in ini.split("\n")]
+            sections = [l_ for l_ in lines if l_.startswith("[")]
+            keys = {}
+            last = None
+            for l_ in lines:
+                if l_.startswith("[") or not l_.strip():
+                    continue
+                if l_[0] in " \t" and last:
+                    keys[last].append(l_.strip())
+                elif "=" in l_:
+                    k_, _, v_ = l_.partition("=")
+                    last = k_.strip()
+                    keys[last] = [v_.strip()] if v_.strip() else []
+            if len(sections) != 1 or not re.fullmatch(r"\[env:[A-Za-z0-9_]+\]", sections[0]):
+                problems.append(f"sections {sections}")
+            if keys.get("board") != [board]:
+                problems.append(f"board = {keys.get('board')} (given {board!r})")
+            if keys.get("platform") != [plat]:
+                problems.append(f"platform = {keys.get('platform')}")
+            if keys.get("upload_port") != ["/dev/ttyX"]:
+                problems.append(f"upload_port = {keys.get('upload_port')}")
+            if keys.get("framework") != ["arduino"]:
+                problems.append(f"framework = {keys.get('framework')}")
+            if (keys.get("lib_deps") or []) != (lb or []):
+                problems.append(f"lib_deps = {keys.get('lib_deps')} (requested {lb})")
+        if problems:
+            n_bad += 1
+            if n_bad <= 3:
+                r.fail(f"write_project/project-for-registered-board[{problems[0].split(' ')[0]}]", (m, wp), f"write_project(platform={plat!r}, board={board!r}, lib_deps={lb}): " + "; ".join(problems)[:300], detail={"platform": plat, "board": board})
+            else:
+                r.stat.obligations += 1
+                r.stat.failed += 1
+        else:
+            r.ok(None)
+    return r
+
+
+def rule_libs(cx, m, rid):
+    r = cx.rule(rid, "_format_lib_section = drop falsy, de-duplicate in first-seen order, one indented continuation line each; '' when nothing remains", floor=100, exhaustive=True)
     fl = m.func("_format_lib_section")
-    alphabet = ["Servo", "LiquidCrystal", "", "Wire"]
+    alphabet = ["Servo", "LiquidCrystal", "", "LiquidCrystal_I2C"]   # the real names: one is a prefix of another
     cases = [None, []]
     for n in (1, 2, 3, 4):
         cases += [list(t) for t in itertools.product(alphabet, repeat=n)]
@@ -151,9 +247,7 @@ def run(cx):
             if bad_l <= 3:
                 r.fail("format_lib_section/first-seen-dedup", (m, fl), f"_format_lib_section({libs!r}) -> {out!r}, expected entries {want!r} in that order", detail={"libs": libs})
     r.stat.samples.append(f"{len(cases)} library lists over {alphabet!r} up to length 4")
-
-    rule_write(cx, m, "C13-WRITE")
-    rule_ini(cx, m, "C13-INI", sorted(set().union(*plats.values())))
+    return r
 
 
 def rule_write(cx, m, rid):
@@ -209,7 +303,9 @@ def rule_write(cx, m, rid):
         # find the PIO_INI.format(...) call that feeds it
         fmt = [c for c in calls_in(wp) if isinstance(c.func, ast.Attribute) and c.func.attr == "format" and norm(c.func.value) == "PIO_INI"]
         if len(fmt) != 1:
-            raise AnalysisError("write_project no longer renders PIO_INI.format(...) exactly once")
+            # rendered elsewhere (a helper): the placeholder feeds are then decided by the evaluation rule (…-EVAL)
+            cx.extra["ini_render"] = "PIO_INI.format is not called in write_project itself; see the -EVAL rule"
+            return
         f = fmt[0]
         want = {"platform": "platform", "board": "board", "port": "port"}
         for k, v in want.items():
